@@ -72,7 +72,38 @@ func genC18(t *rapid.T) c18Case {
 	c.Cfg = cfg
 	switch c.Mode {
 	case "ctx":
-		c.OtherCtx = rapid.SampledFrom([]string{"", "x", "ctx ", "Ctx", "app 2026 envelope v2"}).Draw(t, "octx")
+		switch rapid.IntRange(0, 5).Draw(t, "octxkind") {
+		case 0:
+			c.OtherCtx = rapid.SampledFrom([]string{"", "x", "ctx ", "Ctx", "app 2026 envelope v2"}).Draw(t, "octx")
+		case 1:
+			c.OtherCtx = cfg.Ctx // the right context: must open
+		case 2:
+			c.OtherCtx = cfg.Ctx + rapid.SampledFrom([]string{" ", "x", "\x00", "\n"}).Draw(t, "osuffix")
+		case 3:
+			// differs only in the last character
+			if rs := []rune(cfg.Ctx); len(rs) > 0 {
+				rs[len(rs)-1]++
+				c.OtherCtx = string(rs)
+			} else {
+				c.OtherCtx = "y"
+			}
+		case 4:
+			// differs in one character at a generated position
+			if rs := []rune(cfg.Ctx); len(rs) > 0 {
+				p := rapid.IntRange(0, len(rs)-1).Draw(t, "opos")
+				rs[p] ^= 1
+				c.OtherCtx = string(rs)
+			} else {
+				c.OtherCtx = "z"
+			}
+		default:
+			// a proper prefix
+			if rs := []rune(cfg.Ctx); len(rs) > 0 {
+				c.OtherCtx = string(rs[:rapid.IntRange(0, len(rs)-1).Draw(t, "ocut")])
+			} else {
+				c.OtherCtx = " "
+			}
+		}
 	case "struct":
 		n := rapid.IntRange(1, 3).Draw(t, "n")
 		for i := 0; i < n; i++ {
